@@ -144,7 +144,23 @@ class Isa:
         ms, pats = models.standard_models()
         ip = Interp(self.f, primitives=prims, models=ms, **kw)
         ip.pattern_models = pats
+        # the interrupt request queue is not architectural state of an instruction: its content is
+        # arbitrary here (pop_front yields any request or none), touching it is recorded as an effect
+        ip.pattern_models.append((lambda p, f: "VecDeque" in p and p.endswith("::push_back"), self.m_irq_push))
+        ip.pattern_models.append((lambda p, f: "VecDeque" in p and p.endswith("::pop_front"), self.m_irq_pop))
         return ip
+
+    def m_irq_push(self, ip, st, fr, t, args):
+        st.add_eff(("irq", "push", args[1].bits if isinstance(args[1], Int) else None))
+        return UNIT
+
+    def m_irq_pop(self, ip, st, fr, t, args):
+        n = st.count("irq")
+        v = bv.data_bv("req%d" % n, 8)
+        i = st.count("ctl")
+        some = bv.ctl_var("nonempty", i)
+        st.add_eff(("irq", "pop", v))
+        return [(some, Enum(models.SOME, [Int(v)])), (bv.M.NOT(some), Enum(models.NONE, []))]
 
     def run_exec(self, w0_constraint=None, **kw):
         """returns (interp, outcomes).  w0_constraint: optional function(w0 bits)->BDD."""
